@@ -1,5 +1,5 @@
 import CollectionsC.Properties.C01Sized
-import CollectionsC.Proofs.ArraySized7
+import CollectionsC.Proofs.ArraySized8
 /-! # C16 (sized array part) — rejected operations are inert, for every argument value
 
 Statements only.  Indices range over all of `Nat`, hence over every `size_t` value (`size`,
@@ -15,11 +15,35 @@ theorem error_is_inert (a : ArraySized) (op : Spec.SSeq.Op Elem) (m : Mem) (h : 
     (hw : OpWF a.dataLen op) (hrej : Rejected (a.step op m).1.st) :
     (a.step op m).2.1 = a ∧ (a.step op m).2.2 = m := step_inert a op m h hw hrej
 
-/-- rejected iterator calls leave array and cursor unchanged -/
+/-- `CC_ERR_ALLOC` and `CC_ERR_MAX_CAPACITY` are inert too (they are the refusals of C08; restated
+here so that *every* non-OK status of the core API is covered) -/
+theorem refusal_is_inert (a : ArraySized) (op : Spec.SSeq.Op Elem) (m : Mem) (h : a.Inv) (hw : OpWF a.dataLen op)
+    (hst : (a.step op m).1.st = some .errAlloc ∨ (a.step op m).1.st = some .errMaxCapacity) :
+    (a.step op m).2.1 = a ∧ MemSame a.triple m (a.step op m).2.2 := by
+  obtain ⟨_, _, _, _, _, h6, h7, _⟩ := step_refines a op m h hw
+  refine ⟨h7 ?_, h6⟩
+  unfold refusal
+  rcases hst with hst | hst <;> rw [hst] <;> simp
+
+/-- rejected iterator calls leave array and cursor unchanged: `iter_remove` (nothing yielded yet, or
+the element already removed), `iter_replace` (nothing yielded yet) -/
 theorem iter_error_is_inert (it : Iter) (a : ArraySized) (c : Spec.SSeq.Cursor Elem) (m : Mem) (h : a.Inv)
     (hrel : IterRel it a c) (hst : (a.iterRemove it m).1 ≠ .ok) :
     (a.iterRemove it m).2.2.2.1 = a ∧ (a.iterRemove it m).2.2.1 = it :=
   (iterRemove_refines it a c m h hrel).2.2.2.2.2.2.2 hst
+
+theorem iter_replace_error_is_inert (it : Iter) (a : ArraySized) (e : Buf Nat) (m : Mem)
+    (hst : (a.iterReplace it e m).1 ≠ .ok) : a.iterReplace it e m = (.errOutOfRange, none, a, m) :=
+  iterReplace_inert it a e m hst
+
+/-- rejected zip-iterator calls (`zip_iter_remove` with nothing yielded or already removed,
+`zip_iter_replace` with nothing yielded) leave both arrays, the cursor and the ledger unchanged -/
+theorem zip_error_is_inert (it : Iter) (a1 a2 : ArraySized) (e1 e2 : Buf Nat) (m : Mem) :
+    ((zipRemove it a1 a2 m).1 ≠ .ok →
+      (zipRemove it a1 a2 m).2.2.1 = it ∧ (zipRemove it a1 a2 m).2.2.2.1 = a1 ∧
+      (zipRemove it a1 a2 m).2.2.2.2.1 = a2 ∧ (zipRemove it a1 a2 m).2.2.2.2.2 = m) ∧
+    ((zipReplace it a1 a2 e1 e2 m).1 ≠ .ok → zipReplace it a1 a2 e1 e2 m = (.errOutOfRange, none, a1, a2, m)) :=
+  ⟨zipRemove_inert it a1 a2 m, zipReplace_inert it a1 a2 e1 e2 m⟩
 
 /-- **out_of_range_rejected**: positions `[0, size)` for access, replacement, removal, swapping and
 sub-ranges, `[0, size]` for `add_at`; every other index is rejected (`peek` rejects `size`: A6) and
@@ -77,8 +101,17 @@ theorem empty_rejected (a : ArraySized) (p : List Nat → Bool) (m : Mem) (h : a
 
 /-- **invalid capacity**: capacity 0, element size 0, a capacity too large for the expansion factor
 or for `size_t` bytes: no object and not a single allocator call -/
-theorem invalid_capacity (dl cap : Nat) (grow : Nat → Nat) (exGe : Nat → Bool) (m : Mem)
+theorem invalid_capacity (dl cap : Nat) (grow : Nat → Nat) (exGe : Nat → Bool) (m : Mem) (t : Triple)
     (hc : cap = 0 ∨ exGe (CC_MAX_ELEMENTS / cap) = true ∨ dl = 0 ∨ CC_MAX_ELEMENTS / dl < cap) :
-    ArraySized.new dl cap grow exGe m = (.errInvalidCapacity, none, m) := new_invalid dl cap grow exGe m hc
+    ArraySized.new dl cap grow exGe m t = (.errInvalidCapacity, none, m) := new_invalid dl cap grow exGe m t hc
+
+/-! Non-vacuity: out-of-range calls on a concrete array (indices `size`, `2^63`, and an index whose
+byte offset wraps around `size_t`) are rejected and leave it as it was. -/
+example :
+    let a : ArraySized := { dataLen := 8, size := 1, capacity := 2, grow := fun c => 2 * c,
+                            buf := List.replicate 16 7 }
+    a.Inv ∧ (a.removeAt 1 {}).1 = .errOutOfRange ∧ (a.peek 1 {}).1 = .errOutOfRange ∧
+    (a.replaceAt (List.replicate 8 1) (2 ^ 61) {}).2.2.1.buf = a.buf ∧ (a.addAt (List.replicate 8 1) (2 ^ 63) {}).1 = .errOutOfRange := by
+  decide
 
 end CC.Properties.C16Sized
